@@ -48,6 +48,8 @@ func init() {
 			Run: func(P *Program, R *Report) { extractLimitsRule(P, R) }},
 		Rule{ID: "C12.d", Explain: "VerifyProofStructure size limits: V5 <= Lm+ld+2+Lh+Lstatzk+1 bits, M and V_i <= Lm+Lh+Lstatzk+1, D_i <= ld+Lh+Lstatzk+1, C_i <= |N| bits (symbolic comparison).",
 			Run: func(P *Program, R *Report) { rangeSizesRule(P, R, "C12.d") }},
+		Rule{ID: "C12.m", Explain: "the commitments C_i carried by a range proof are bases of the verified relations: the structure check accepts only if every C_i is an element of the group - 0 < C_i < N (a C_i that is zero modulo N makes every reconstructed commitment zero whatever the responses, so that any inequality verifies).",
+			Run: func(P *Program, R *Report) { rangeGroupElementsRule(P, R, "C12.m") }},
 		Rule{ID: "C12.e", Explain: "the proven relation is built from the descriptor: base R<index> raised to -k (sign 1) or k (sign -1) on the left; S^(-v5), R<index>^(-a*sign*m) and each C_i^(d_i) on the right; C_i = R<index>^(d_i) S^(v_i).",
 			Run: func(P *Program, R *Report) { relationShapeRule(P, R) }},
 		Rule{ID: "C12.l", Explain: "the challenge covers every relation of the range proof: in CommitmentsFromSecrets and CommitmentsFromProof the list returned by each sub-relation's contribution call flows into the returned list.",
@@ -453,6 +455,67 @@ func rangeSizesRule(P *Program, R *Report, rule string) {
 	each("DResponses[i]", rpP+".DResponses[#i]", rpS+".ld+Lh+Lstatzk+1")
 	each("VResponses[i]", rpP+".VResponses[#i]", "Lm+Lh+Lstatzk+1")
 	each("Cs[i]", rpP+".Cs[#i]", "bitlen("+pkD+".N)")
+}
+
+// groupElementMatchers: guards that establish 0 < x (lower) and x < N (upper) for the big.Int described by subj,
+// with N the modulus described by modulus.
+func groupElementMatchers(P *Program, subj func(string) bool, modulus string) (lower, upper func(a Atom) bool) {
+	lower = func(a Atom) bool {
+		g, ok := P.guardOf(a)
+		if !ok || g.Kind != "big" || !subj(g.Subject) {
+			return false
+		}
+		if t, ok := g.inclusiveLower(); ok && t.equal(tconst(1)) {
+			return true
+		}
+		return g.Rel == ">" && g.Bound.equal(tconst(0))
+	}
+	upper = func(a Atom) bool {
+		g, ok := P.guardOf(a)
+		if !ok || g.Kind != "big" || !subj(g.Subject) {
+			return false
+		}
+		if t, ok := g.exclusiveUpper(); ok && t.equal(tsym(modulus)) {
+			return true
+		}
+		return false
+	}
+	// the comparison may have been oriented with the modulus as subject (N > x): read it the other way round
+	upper0 := upper
+	upper = func(a Atom) bool {
+		if upper0(a) {
+			return true
+		}
+		g, ok := P.guardOf(a)
+		if !ok || g.Kind != "big" || g.Subject != modulus {
+			return false
+		}
+		n := g.Bound.opaqueName()
+		if n == "" || !subj(n) {
+			return false
+		}
+		return g.Rel == ">" // N > x
+	}
+	return
+}
+
+func rangeGroupElementsRule(P *Program, R *Report, rule string) {
+	fn := mustFunc(P, R, rule, kRPVerify)
+	if fn == nil {
+		return
+	}
+	lower, upper := groupElementMatchers(P, is(rpP+".Cs[#i]"), pkD+".N")
+	for _, side := range []struct {
+		name, what string
+		m          func(a Atom) bool
+	}{{"positive", "0 < C_i", lower}, {"below-N", "C_i < N", upper}} {
+		side := side
+		fa := &ForAll{P: P, Spec: ForAllSpec{Coll: anyOfStr(is(rpS+".cRep"), is(rpP+".Cs")), Body: func(f *ssa.Function, l *Loop) *MustPass {
+			return &MustPass{Match: side.m}
+		}}}
+		m := fa.OnAccept(fn, AcceptTrue(0))
+		R.decide(rule, kRPVerify+":Cs:"+side.name, "accept => every commitment of the range proof is a group element: "+side.what, m.Holds, m.Path, P.Pos(fn.Pos()))
+	}
 }
 
 func relationShapeRule(P *Program, R *Report) {
